@@ -75,6 +75,10 @@ var preludeFns = map[string]preludeFn{
 	"bstr_content":      {[]Sort{SBytes}, SBytes},
 	"item_wf":           {[]Sort{SBytes}, SBool},
 	"abs":               {[]Sort{SInt}, SInt},
+	"has_int":           {[]Sort{"(Array Any Bool)", SInt}, SBool},
+	"int_witness":       {[]Sort{"(Array Any Bool)", SInt}, SAny},
+	"any_is_int":        {[]Sort{SAny}, SBool},
+	"any_int_val":       {[]Sort{SAny}, SInt},
 	"byte1":             {[]Sort{SInt}, SBytes},
 	"wf_err":            {[]Sort{SAny, SBytes}, SAny},
 	"b_major":           {[]Sort{SBytes}, SInt},
@@ -319,10 +323,10 @@ func (env *SEnv) callSpec(sf *SpecFn, args []*SExpr) *SVal {
 		}
 		vals[i] = v
 	}
-	if sf.Body == nil {
+	if sf.Body == nil || u.eng.pureSpec(sf) {
 		ts := make([]Term, len(vals))
 		for i, v := range vals {
-			ts[i] = v.T
+			ts[i] = env.value(v).T
 		}
 		return &SVal{T: App(ret.Sort, "spec_"+sf.Name, ts...), Go: ret.Go}
 	}
@@ -361,4 +365,61 @@ func (e *Engine) specDecls() string {
 		fmt.Fprintf(&sb, "(declare-fun spec_%s (%s) %s)\n", n, strings.Join(as, " "), e.resolveType(sf.Ret).Sort)
 	}
 	return sb.String()
+}
+
+// pureSpec reports whether a defined spec function is state-independent (its
+// body reads no heap component). Such functions are emitted once as SMT
+// define-funs instead of being expanded at every use.
+func (e *Engine) pureSpec(sf *SpecFn) bool {
+	if sf.Body == nil {
+		return false
+	}
+	if p, ok := e.pureMemo[sf.Name]; ok {
+		return p
+	}
+	if e.pureMemo == nil {
+		e.pureMemo = map[string]bool{}
+	}
+	e.pureMemo[sf.Name] = false // recursion guard
+	pure := false
+	func() {
+		defer func() {
+			if r := recover(); r != nil {
+				if _, ok := r.(evalErr); ok {
+					pure = false
+					return
+				}
+				panic(r)
+			}
+		}()
+		u := &Unit{eng: e, name: "pure", init0: map[string]Term{}, usedExterns: map[string]bool{}, usedContracts: map[string]bool{}}
+		st := &State{pc: True, comps: map[string]Term{}}
+		env := &SEnv{u: u, cur: st, old: nil, vars: map[string]*SVal{}, fn: "spec " + sf.Name, pc: True, noAssume: true}
+		var params []string
+		for _, p := range sf.Params {
+			pt := e.resolveType(p.Type)
+			if pt.Go != nil {
+				if _, isStruct := pt.Go.Underlying().(*types.Struct); isStruct {
+					panic(evalErr("struct parameter"))
+				}
+			}
+			name := sym("a!" + p.Name)
+			env.vars[p.Name] = &SVal{T: Term{name, pt.Sort}, Go: pt.Go}
+			params = append(params, fmt.Sprintf("(%s %s)", name, pt.Sort))
+		}
+		ret := e.resolveType(sf.Ret)
+		r := env.eval(sf.Body)
+		if ret.Go != nil {
+			r = env.coerceGo(r, ret.Go)
+		} else {
+			r = env.coerce(r, ret.Sort)
+		}
+		if len(u.init0) > 0 || len(u.cmds) > 0 || len(st.comps) > 0 {
+			return
+		}
+		pure = true
+		e.pureDefs = append(e.pureDefs, fmt.Sprintf("(define-fun spec_%s (%s) %s %s)", sf.Name, strings.Join(params, " "), ret.Sort, r.T.S))
+	}()
+	e.pureMemo[sf.Name] = pure
+	return pure
 }
